@@ -24,6 +24,7 @@ from typing import Dict, List, Optional, Set, Tuple
 
 from sa import paths
 from sa.db import DB, AnalysisError, FuncInfo, norm, walk_no_nested
+from sa.fixtures import fixture
 from sa.report import Report
 from sa.rules.c06 import show
 from sa.rules.c09 import analyse
@@ -76,6 +77,18 @@ def _norm_loop(lp: ast.For) -> str:
                         stops = True
     return "for b in <%s>.get_bindings()[einsum]: if b[%s]: take b[%s]%s" % (
         "R" if recv else "?", sel, take, "; break" if stops else "")
+
+
+@fixture("C12/T11 coarse de-duplication matcher")
+def _fx_t11() -> bool:
+    src = ("def f(ts):\n    seen = set()\n    for t in ts:\n        name = t.name()\n"
+           "        for r, k in t.info():\n            if name in seen:\n                continue\n"
+           "            seen.add(name)\n            place(r, k)\n"
+           "def g(ts):\n    seen = set()\n    for t in ts:\n        for r in t.info():\n"
+           "            key = (t.name(), r)\n            if key not in seen:\n                seen.add(key)\n")
+    tree = paths.link_parents(ast.parse(src))
+    f_, g_ = tree.body
+    return len(paths.coarse_dedup_skips(f_)) == 1 and not paths.coarse_dedup_skips(g_)
 
 
 def run(db: DB, rep: Report) -> None:
@@ -446,6 +459,7 @@ def run(db: DB, rep: Report) -> None:
               and any(isinstance(x, ast.Call) and isinstance(x.func, ast.Attribute) and x.func.attr == "append"
                       and norm(x.args[0]).startswith("self.fiber_traces[") for s_ in n.body for x in ast.walk(s_))]
     ok = False
+    t7_decided = False
     why = "branch not found"
     if len(lf_ifs) == 1:
         apps_ = [x for s_ in lf_ifs[0].body for x in ast.walk(s_) if isinstance(x, ast.Call) and
@@ -456,18 +470,95 @@ def run(db: DB, rep: Report) -> None:
         if ok:
             a = apps_[0].args[0]          # self.fiber_traces[rank][X][True]
             key = a.value.slice if isinstance(a, ast.Subscript) and isinstance(a.value, ast.Subscript) else None
-            from_leader = False
+            vals: List[Optional[ast.AST]] = [key]
+            rdefs = []
             if isinstance(key, ast.Name):
-                for st, v in paths.defs_of(bft.node, key.id):
-                    if isinstance(v, ast.Subscript) and isinstance(v.slice, ast.Constant) and v.slice.value == "leader":
-                        from_leader = True
-            ok = from_leader
-            why = "the trace is looked up under %s" % (norm(key) if key is not None else "?")
+                rdefs = paths.reaching_defs(key.id, apps_[0], bft.node)
+                vals = [v for _, v in rdefs]
+            # the level's rank: self.fiber_traces[<rank>][key][True]
+            rank_e = a.value.value.slice if isinstance(a, ast.Subscript) and isinstance(a.value, ast.Subscript) \
+                and isinstance(a.value.value, ast.Subscript) else None
+            rank_free = []
+            if isinstance(rank_e, ast.Name):
+                here = {id(t) for t, _ in paths.guards(apps_[0], stop=bft.node)}
+                for st_, v in rdefs:
+                    if v is None or (isinstance(v, ast.Constant) and v.value in ("", None)):
+                        continue
+                    dep = set(paths.load_names(v))
+                    if isinstance(st_, ast.stmt):
+                        for t, _ in paths.guards(st_, stop=bft.node):
+                            if id(t) not in here:
+                                dep |= paths.load_names(t)
+                    if rank_e.id not in dep:
+                        rank_free.append(v)
+
+            def is_leader(v) -> bool:
+                return isinstance(v, ast.Subscript) and isinstance(v.slice, ast.Constant) and \
+                    v.slice.value == "leader"
+
+            def neutral(v) -> bool:
+                return isinstance(v, ast.Constant) and v.value in ("", None)
+            ok = bool(vals) and any(is_leader(v) for v in vals) and \
+                all(is_leader(v) or neutral(v) for v in vals)
+            # recognisably another tensor's name: <T>.root_name() / a constant
+            t7_decided = ok or all(
+                is_leader(v) or neutral(v) or isinstance(v, ast.Constant) or
+                (isinstance(v, ast.Call) and isinstance(v.func, ast.Attribute) and
+                 v.func.attr in ("root_name", "tensor_name")) for v in vals if v is not None) and \
+                None not in vals and bool(vals)
+            why = "the trace is looked up under %s" % " | ".join(norm(v) if v is not None else "?" for v in vals)
+            if rank_free:
+                # whatever its form, a leader chosen without looking at the level's rank is
+                # another level's leader as soon as two ranks are bound
+                ok, t7_decided = False, True
+                why += "; %s does not depend on the rank %s being traced" % (norm(rank_free[0])[:50], rank_e.id)
     rep.check("T7", ok, db.loc(lf_ifs[0]) if lf_ifs else db.loc(bft.node), bft.short, "consumed-trace-is-leaders",
               "a leader-follower intersector consumes the trace registered for binding['leader']",
               "the trace a leader-follower intersector consumes is not the one registered for the bound "
               "leader (%s): the consumed trace differs from the consumable one when the leader is not the "
-              "first factor" % why)
+              "first factor" % why, decided=t7_decided)
+
+    # ---- T10: no decision reads what a finished loop left behind ------------------
+    rep.rule("T10", "registration / consumption decisions do not read a finished loop's last element", 30)
+    for f in db.all_functions(["teaal.ir.metrics.", "teaal.trans.collector."]):
+        left = paths.leftover_uses(f.node)
+        bad = []
+        for x, lp, nm in left:
+            # only reads inside a test (if / while / conditional expression / comprehension filter)
+            cur: ast.AST = x
+            in_test = False
+            for p_ in paths.parents(x, f.node):
+                if isinstance(p_, (ast.If, ast.While, ast.IfExp)) and any(y is x for y in ast.walk(p_.test)):
+                    in_test = True
+                if isinstance(p_, ast.comprehension) and any(y is x for i_ in p_.ifs for y in ast.walk(i_)):
+                    in_test = True
+                if isinstance(p_, ast.stmt):
+                    break
+            if in_test:
+                bad.append((x, lp, nm))
+        rep.check("T10", not bad, db.loc(bad[0][0]) if bad else db.loc(f.node), f.short,
+                  "leftover:" + (bad[0][2] if bad else f.short),
+                  "%s: no test reads a name left behind by a finished loop" % f.short,
+                  "%s decides on '%s' after the loop over %s (%s) that assigns it has finished: only the last "
+                  "element of that collection is looked at, so a trace that an earlier element needs is not "
+                  "registered (or not consumed) although its reader still exists" %
+                  (f.short, bad[0][2] if bad else "", norm(bad[0][1].iter)[:40] if bad else "",
+                   db.loc(bad[0][1]) if bad else ""))
+
+    # ---- T11: a de-duplication inside a per-element loop is keyed by the element --------
+    rep.rule("T11", "trace placement is not skipped by a de-duplication coarser than the element", 30)
+    if not _fx_t11():
+        raise AnalysisError("T11 matcher does not fire on its positive example")
+    for f in db.all_functions(["teaal.ir.metrics.", "teaal.trans.collector."]):
+        bad11 = paths.coarse_dedup_skips(f.node)
+        rep.check("T11", not bad11, db.loc(bad11[0][0]) if bad11 else db.loc(f.node), f.short,
+                  "dedup:" + (bad11[0][2] if bad11 else f.short),
+                  "%s: no per-element work is skipped by a key that ignores the element" % f.short,
+                  "%s skips the work for an element of %s when '%s' was seen before, but that key does not "
+                  "depend on the element (%s): every element after the first is skipped, so the trace a "
+                  "later element registers is never produced in the loop nest" %
+                  (f.short, norm(bad11[0][1].iter)[:40] if bad11 else "", bad11[0][2] if bad11 else "",
+                   norm(bad11[0][1].target) if bad11 else ""))
 
     # ---- T9: the sequencer's consumed rank is the registered rank ------------------
     rep.rule("T9", "sequencer: registered rank == consumed rank (the binding's rank as written)", 2)
@@ -541,6 +632,17 @@ def mutants(db: DB):
     col, met, cmp_, hd = ("teaal/trans/collector.py", "teaal/ir/metrics.py", "teaal/ir/component.py",
                           "teaal/trans/header.py")
     return [
+        M("leader looked up per Einsum, not per rank", met,
+          "                            leader = \"\"\n                            for binding in coiter.get_bindings()[einsum]:\n                                if binding[\"rank\"] == rank:\n                                    leader = binding[\"leader\"]\n                                    break",
+          "                            leader = coiter.get_bindings()[einsum][-1][\"leader\"]", "T7"),
+        M("lazy decision reads the last buffer's style", met,
+          "                        else:\n                            info.add((rank, style, False))\n\n        # Collect traces for intersection",
+          "                        else:\n                            info.add((rank, style, False))\n\n                    if style == \"lazy\":\n                        info.add((rank, \"fiber\", False))\n\n        # Collect traces for intersection",
+          "T10"),
+        M("eager subtree placed once per tensor", col,
+          "                        # Register the rank order explicitly\n                        register = True\n",
+          "                        # Register the rank order explicitly\n                        register = True\n\n                        if tensor_name in traces:\n                            continue\n                        traces.add(tensor_name)\n",
+          "T11"),
         M("producer suffix _read -> _rd", col, "            if is_read_trace:\n                trace += \"_read\"\n            else:\n                trace += \"_write\"\n\n                # We want to collect",
           "            if is_read_trace:\n                trace += \"_rd\"\n            else:\n                trace += \"_write\"\n\n                # We want to collect", "T2"),
         M("consumer separator - -> _", col, "        prefix = self.metrics.get_hardware().get_prefix(einsum) + \\\n            \"-\" + binding[\"rank\"] + \"-\"",
